@@ -25,6 +25,26 @@ message Second { message Inner1 { int32 i = 1; } message Inner2 { int32 j = 1; }
 '''
 
 
+# several files sharing packages / namespaces: the order in which the front end lowers FILES must not show in the output
+MULTI_PROTO = {
+    "mf_main.proto": 'syntax = "proto3";\npackage shop.core;\nimport "mf_user.proto";\nimport "mf_common.proto";\nimport "mf_item.proto";\nimport "mf_pay.proto";\n'
+                     'message Order { shop.core.User buyer = 1; repeated shop.core.Item items = 2; shop.base.Stamp at = 3; shop.base.Money total = 4; shop.pay.Receipt r = 5; }\n'
+                     'message OrderList { repeated Order orders = 1; }\n',
+    "mf_user.proto": 'syntax = "proto3";\npackage shop.core;\nimport "mf_common.proto";\nmessage User { string name = 1; shop.base.Stamp joined = 2; Address home = 3; }\nmessage Address { string street = 1; }\n',
+    "mf_item.proto": 'syntax = "proto3";\npackage shop.core;\nimport "mf_common.proto";\nmessage Item { string sku = 1; shop.base.Money price = 2; Kind kind = 3; }\nenum Kind { KIND_ZERO = 0; KIND_ONE = 1; }\n',
+    "mf_common.proto": 'syntax = "proto3";\npackage shop.base;\nmessage Stamp { int64 secs = 1; }\nmessage Money { int64 units = 1; string currency = 2; }\n',
+    "mf_pay.proto": 'syntax = "proto3";\npackage shop.pay;\nimport "mf_common.proto";\nmessage Receipt { shop.base.Money paid = 1; shop.base.Stamp at = 2; }\n',
+}
+MULTI_THRIFT = {
+    "mt_main.thrift": 'include "mt_user.thrift"\ninclude "mt_common.thrift"\ninclude "mt_item.thrift"\nnamespace rs shop.core\n'
+                      'struct Order { 1: mt_user.User buyer, 2: list<mt_item.Item> items, 3: mt_common.Stamp at }\n'
+                      'service Shop { Order get(1: mt_user.User u) throws (1: mt_common.Oops e), void put(1: Order o) }\n',
+    "mt_user.thrift": 'include "mt_common.thrift"\nnamespace rs shop.core\nstruct User { 1: string name, 2: mt_common.Stamp joined }\nstruct Address { 1: string street }\n',
+    "mt_item.thrift": 'include "mt_common.thrift"\nnamespace rs shop.core\nstruct Item { 1: string sku, 2: mt_common.Money price, 3: Kind kind }\nenum Kind { ONE = 1, TWO = 2 }\n',
+    "mt_common.thrift": 'namespace rs shop.base\nstruct Stamp { 1: i64 secs }\nstruct Money { 1: i64 units, 2: string currency }\nexception Oops { 1: string why }\n',
+}
+
+
 def tree_hash(root):
     h = {}
     for dp, dn, fn in os.walk(root):
@@ -37,6 +57,9 @@ def tree_hash(root):
 def run(rep, tier, seed, replay):
     c.build_harness()
     mc = rt.cached_model_check("codegen-pipeline", "MCCodegenPipeline", "MCCodegenPipeline.cfg", tier, workers=4)
+    # the defective variants of the design must be refuted by the model (else the model is vacuous)
+    refuted = [rt.cached_model_refutation("codegen-pipeline-nested-hash", "MCCodegenPipeline", "MCCodegenPipelineHash.cfg", tier, "OutputIsFunctionOfInput"),
+               rt.cached_model_refutation("codegen-pipeline-file-hash", "MCCodegenPipeline", "MCCodegenPipelineFileHash.cfg", tier, "OutputIsFunctionOfInput")]
     # corpus: generated schemas, the repository's golden IDLs, and a .proto with several sibling nested messages / enums
     d = os.path.join(c.OUT, "corpus", f"c17-{tier}-{seed}")
     os.makedirs(d, exist_ok=True)
@@ -52,6 +75,10 @@ def run(rep, tier, seed, replay):
     p = os.path.join(d, "nest.proto")
     open(p, "w").write(NEST_PROTO)
     idls.append(("proto", p, d))
+    for name, txt in list(MULTI_PROTO.items()) + list(MULTI_THRIFT.items()):
+        open(os.path.join(d, name), "w").write(txt)
+    idls.append(("proto", os.path.join(d, "mf_main.proto"), d))
+    idls.append(("thrift", os.path.join(d, "mt_main.thrift"), d))
     gold_t = sorted(glob.glob(os.path.join(c.REPO, "pilota-build/test_data/thrift/*.thrift")))
     gold_p = sorted(glob.glob(os.path.join(c.REPO, "pilota-build/test_data/protobuf/*.proto")))
     if tier == "quick":
@@ -60,16 +87,28 @@ def run(rep, tier, seed, replay):
     threads = [1, 2, 5, 16] if tier == "quick" else [1, 2, 3, 4, 5, 6, 8, 11, 16, 16, 1, 7]
     runs = 0
     samples = []
+    def one(job):
+        kind, path, inc, mode, t = job
+        td = tempfile.mkdtemp(prefix="c17-", dir=c.OUT)
+        try:
+            u = gen.Unit("gen", path, kind=kind, split=(mode == "split"), include=inc)
+            gen.run_builder(u, td, env={"RAYON_NUM_THREADS": str(t)})
+            return (t, u.ok, u.status, tree_hash(td))
+        finally:
+            shutil.rmtree(td, ignore_errors=True)
+
+    # independent builder processes, a few at a time (each is its own process with its own hash seeds and rayon pool)
+    import concurrent.futures
+    jobs = [(kind, path, inc, mode, t) for kind, path, inc in idls for mode in ("single", "split") for t in threads]
+    with concurrent.futures.ThreadPoolExecutor(max_workers=6) as ex:
+        results = list(ex.map(one, jobs))
+    by = {}
+    for job, r in zip(jobs, results):
+        by.setdefault((job[0], job[1], job[3]), []).append(r)
     for kind, path, inc in idls:
         for mode in ("single", "split"):
-            hashes = []
-            for t in threads:
-                td = tempfile.mkdtemp(prefix="c17-", dir=c.OUT)
-                u = gen.Unit("gen", path, kind=kind, split=(mode == "split"), include=inc)
-                gen.run_builder(u, td, env={"RAYON_NUM_THREADS": str(t)})
-                runs += 1
-                hashes.append((t, u.ok, u.status, tree_hash(td)))
-                shutil.rmtree(td, ignore_errors=True)
+            hashes = by[(kind, path, mode)]
+            runs += len(hashes)
             oks = {h[1] for h in hashes}
             if oks == {False}:
                 continue      # the builder refuses this document every time: C14's business, not C17's
@@ -92,8 +131,9 @@ def run(rep, tier, seed, replay):
                 "seeds each) with RAYON_NUM_THREADS in " + str(threads) + " into identically named outputs in separate directories; SHA-256 "
                 "of every emitted file must agree.  Model: CodegenPipeline (all hash iteration orders x all interleavings of 3 workers over 3 "
                 "modules) with nested messages lowered in declaration order satisfies OutputIsFunctionOfInput; with hash-order lowering "
-                "(MCCodegenPipelineHash.cfg, the behaviour before the fix) TLC produces the counterexample the corpus file nest.proto exercises",
-        "model": mc, "exhaustive": False,
+                "(MCCodegenPipelineHash.cfg, the behaviour before the fix) TLC produces the counterexample the corpus file nest.proto exercises; "
+                "with files lowered in hash order (MCCodegenPipelineFileHash.cfg) the counterexample the multi-file corpora mf_*.proto / mt_*.thrift exercise",
+        "model": mc, "defective_variants_refuted_by_model": refuted, "exhaustive": False,
     }
     rep.assumptions = ["rayon schedules inside one process are observed, not controlled; control is on the model and across processes / thread counts",
                        "workspace mode is not exercised (its generation step shells out to cargo, which needs the network for the generated crates)"]
